@@ -138,6 +138,7 @@ namespace ratio
                             }
                         }
                 // we notify that some atoms are starting their execution..
+                started_atms.insert(starting_atms->second.cbegin(), starting_atms->second.cend());
                 for (const auto &l : listeners)
                     l->start(starting_atms->second);
             }
@@ -193,6 +194,7 @@ namespace ratio
                         }
                     }
                 // we notify that some atoms are ending their execution..
+                ended_atms.insert(ending_atms->second.cbegin(), ending_atms->second.cend());
                 for (const auto &l : listeners)
                     l->end(ending_atms->second);
             }
@@ -299,12 +301,12 @@ namespace ratio
                 auto &c_atm = static_cast<atom &>(*atm);
                 if (slv.get_sat_core().value(c_atm.get_sigma()) == True)
                 { // the atom is active..
+                    if (ended_atms.count(&c_atm))
+                        continue; // this atom has already been executed..
                     if (slv.is_impulse(c_atm))
                     {
                         arith_expr at_expr = atm->get(RATIO_AT);
                         inf_rational at = slv.arith_value(at_expr);
-                        if (at < current_time)
-                            continue; // this atom is already in the past..
                         s_atms[at].insert(&c_atm);
                         e_atms[at].insert(&c_atm);
                         pulses.insert(at);
@@ -314,11 +316,9 @@ namespace ratio
                         arith_expr s_expr = atm->get(RATIO_START);
                         arith_expr e_expr = atm->get(RATIO_END);
                         inf_rational end = slv.arith_value(e_expr);
-                        if (end < current_time)
-                            continue; // this atom is already in the past..
                         inf_rational start = slv.arith_value(s_expr);
-                        if (start >= current_time)
-                        {
+                        if (!started_atms.count(&c_atm))
+                        { // the start of this atom has not been dispatched yet (notice that the pulses between the last tick and the current time are still pending)..
                             s_atms[start].insert(&c_atm);
                             pulses.insert(start);
                         }
